@@ -12,6 +12,7 @@ import (
 	"runtime"
 	"runtime/debug"
 	"strings"
+	"syscall"
 	"time"
 
 	"verif/harness/kernel"
@@ -52,7 +53,8 @@ type Result struct {
 	Probes     int                `json:"p,omitempty"`
 	WriteProbe int                `json:"w,omitempty"` // end-of-life write/read probes this request was covered by
 	Req        *Req               `json:"q,omitempty"`
-	History    []string           `json:"h,omitempty"` // requests executed on the same instance before this one (violations only)
+	PrefixReqs []*Req             `json:"pq,omitempty"` // the concrete prefix requests (violations only)
+	History    []string           `json:"h,omitempty"`  // requests executed on the same instance before this one (violations only)
 	KeyText    string             `json:"kt,omitempty"`
 	Poisoned   bool               `json:"x,omitempty"`
 }
@@ -76,7 +78,20 @@ type outcome struct {
 	stack   string
 	fatal   bool
 	blocked bool
+	mem     int64 // resident set size when the memory bound was hit (0: the watchdog expired)
 	dump    string
+}
+
+const memLimit = 3 << 30
+
+func rssBytes() int64 {
+	b, err := os.ReadFile("/proc/self/statm")
+	if err != nil {
+		return 0
+	}
+	var size, res int64
+	fmt.Sscanf(string(b), "%d %d", &size, &res)
+	return res * int64(os.Getpagesize())
 }
 
 func httpRequest(r *Req) (*http.Request, error) {
@@ -181,12 +196,22 @@ func serve(h http.Handler, r *Req, wd time.Duration) outcome {
 	}()
 	t := time.NewTimer(wd)
 	defer t.Stop()
-	select {
-	case o := <-done:
-		o.body = rec.Body.Bytes()
-		return o
-	case <-t.C:
-		return outcome{blocked: true, dump: allStacks()}
+	tick := time.NewTicker(250 * time.Millisecond)
+	defer tick.Stop()
+	for {
+		select {
+		case o := <-done:
+			o.body = rec.Body.Bytes()
+			return o
+		case <-t.C:
+			return outcome{blocked: true, dump: allStacks()}
+		case <-tick.C:
+			// resource bound, not a timing bound: a request on a 16 KiB volume that makes the process grow by gigabytes
+			// is an unbounded allocation (it would end in an OOM kill); stop before it hurts the machine
+			if rss := rssBytes(); rss > memLimit {
+				return outcome{blocked: true, mem: rss, dump: allStacks()}
+			}
+		}
 	}
 }
 
@@ -220,7 +245,11 @@ func sigStem(d Desc) string {
 
 // Signature of a violation: <oracle>:<side>:<method> <route template>?action=<action>:<body outcome>[:<where>]
 func Signature(oracle string, d Desc, r *Req, where string) string {
-	s := oracle + ":" + sigStem(d) + ":" + sigBodyOutcome(r)
+	out := "any" // the handler (if any) reads no body
+	if rt, _ := match(d.Side, d.Method, d.Tmpl, d.Act); rt != nil && rt.Body != nil {
+		out = sigBodyOutcome(r)
+	}
+	s := oracle + ":" + sigStem(d) + ":" + out
 	if where != "" {
 		s += ":" + where
 	}
@@ -264,6 +293,7 @@ type runner struct {
 	baseKey  string
 	baseText string
 	history  []int // indexes of batch requests executed on cur since it was built
+	prefReqs []*Req
 	jf       *os.File
 	results  []*Result
 	batch    []Desc
@@ -362,7 +392,11 @@ func (rn *runner) exec(x instance, d Desc, r *Req, state string, what string) (o
 	switch {
 	case o.blocked:
 		g, where, wait := handlerGoroutine(o.dump)
-		add("blocked", where, fmt.Sprintf("%s: the handler did not return within %v; its goroutine is in state [%s] at %s:\n%s", what, rn.wd, wait, where, g))
+		if o.mem > 0 {
+			add("memory-blowup", where, fmt.Sprintf("%s: the handler had not returned and the process had grown to %d MiB resident (bound %d MiB); its goroutine is in state [%s] at %s:\n%s", what, o.mem>>20, memLimit>>20, wait, where, g))
+		} else {
+			add("blocked", where, fmt.Sprintf("%s: the handler did not return within %v; its goroutine is in state [%s] at %s:\n%s", what, rn.wd, wait, where, g))
+		}
 		return o, viol, true, exp, nil
 	case o.fatal:
 		add("fatal-exit", topJivaFrame(o.stack), fmt.Sprintf("%s: logrus.Fatal - the process would have exited\n%s\n%s", what, clip(logBuf.String(), 1500), o.stack))
@@ -405,6 +439,7 @@ func (rn *runner) build() error {
 		x.destroy(p)
 		return fmt.Errorf("state class %s/%s does not pass the probes: %+v", rn.u.Side, rn.u.Class, v)
 	}
+	rn.prefReqs = nil
 	for i, ds := range rn.u.Prefix {
 		d, err := ParseDesc(ds)
 		if err != nil {
@@ -414,6 +449,7 @@ func (rn *runner) build() error {
 		if err != nil {
 			return err
 		}
+		rn.prefReqs = append(rn.prefReqs, r)
 		what := fmt.Sprintf("prefix[%d] %s", i, ds)
 		_, v, p, _, _ := rn.exec(x, d, r, x.state(), what)
 		if !p {
@@ -455,7 +491,10 @@ func (rn *runner) retire(poisoned bool) {
 		x.destroy(true)
 		return
 	}
-	ok, err := x.writeProbe()
+	ok, err, transient := x.writeProbe()
+	if transient {
+		rn.counters["write_probe_failed_once_then_served"]++
+	}
 	hist := rn.history
 	rn.history = nil
 	x.destroy(false)
@@ -489,7 +528,7 @@ func (rn *runner) retire(poisoned bool) {
 			_, p, _ = rn.after(y, d, r, "bisect")
 		}
 		if !p {
-			if ok, err := y.writeProbe(); ok && err != nil {
+			if ok, err, _ := y.writeProbe(); ok && err != nil {
 				rn.results[i].Req = r
 				rn.results[i].Viol = append(rn.results[i].Viol, kernel.Violation{Oracle: "probe-write", Signature: Signature("probe-write", d, r, ""), Detail: "after " + d.String() + ": " + err.Error()})
 			}
@@ -600,6 +639,7 @@ func (rn *runner) one(i int) (poisoned bool, err error) {
 	if len(viol) > 0 {
 		res.Viol = viol
 		res.Req = r
+		res.PrefixReqs = rn.prefReqs
 		for _, h := range hist {
 			res.History = append(res.History, rn.batch[h].String())
 		}
@@ -644,6 +684,12 @@ func Exec(req *kernel.Request) (resp *kernel.Response) {
 			return
 		}
 		rn.jf = f
+		// the Go runtime writes "fatal error: …" to file descriptor 2 and then dumps every goroutine: keep the HEAD of
+		// that output in a file next to the journal (the pool only keeps the tail)
+		if ef, err := os.OpenFile(u.Journal+".stderr", os.O_CREATE|os.O_WRONLY|os.O_APPEND, 0644); err == nil {
+			syscall.Dup2(int(ef.Fd()), 2)
+			ef.Close()
+		}
 	}
 	for i, s := range req.Path {
 		d, err := ParseDesc(s)
